@@ -31,6 +31,10 @@ from .lib import clist, cnat, cz
 
 # model = pinned behaviour of /repo (False) or the repaired behaviour (True), per finding
 REPAIRED = {"F-C06a": False, "F-C06b": False, "F-C06c": False, "F-C06d": False, "F-C06e": False}
+# experiments only (mutation / candidate-fix runs against a scratch copy): VERIF_REPAIRED=F-C06a,F-C06b switches entries on
+for _k in filter(None, os.environ.get("VERIF_REPAIRED", "").split(",")):
+    if _k in REPAIRED:
+        REPAIRED[_k] = True
 
 WHAT = {
     "F-C06a-merge": "F-C06a merge(): the cells and cell data of a piece that contributes no new point are lost",
@@ -343,7 +347,8 @@ def content_of_result(res):
     pnames = sorted(res["pf"])
     cnames = sorted(res["cf"])
     npts = len(res["points"])
-    P = Counter((tuple(res["points"][i]), tuple(tuple(res["pf"][n]["rows"][i]) for n in pnames)) for i in range(npts))
+    P = Counter((tuple(res["points"][i]), tuple(tuple(res["pf"][n]["rows"][i]) if i < len(res["pf"][n]["rows"]) else None for n in pnames))
+                for i in range(npts))
     C = Counter()
     for t, rows in res["cells"]:
         for k, cs in enumerate(rows):
@@ -351,7 +356,7 @@ def content_of_result(res):
             for n in cnames:
                 e = res["cf"][n].get(str(t))
                 vals.append(tuple(e["rows"][k]) if e is not None and k < len(e["rows"]) else None)
-            C[(t, tuple(tuple(res["points"][p]) for p in cs), tuple(vals))] += 1
+            C[(t, tuple(tuple(res["points"][p]) if 0 <= p < npts else ("corner index out of range", p) for p in cs), tuple(vals))] += 1
     dt = {("p", n): res["pf"][n]["dtype"] for n in pnames}
     for n in cnames:
         ds = {e["dtype"] for e in res["cf"][n].values()}
